@@ -1,5 +1,6 @@
 import SLE.Lemmas.Layout
 import SLE.Lemmas.Unify
+import SLE.Lemmas.MergePacked
 /-!
 # C02 — determinism under hash-iteration order
 
@@ -63,5 +64,15 @@ theorem C02_unify_any_order (o : Unify.Orders) (ho : Unify.OrdersOk o) (fuel nva
 /-! ### Non-vacuity -/
 example : NoBadTriple [.mapping 0 1, .mapping 2 3, .any] := by decide
 example : ¬ NoBadTriple [.bytes, .word (some 8) .bool, .word (some 160) .address] := witness_has_bad_triple
+
+
+/-- With a packed encoding in the class the fold IS order dependent (finding D18): the same three
+pieces of evidence fold to the encoding (both words pushed down to its span) or to a conflict. -/
+theorem C02_fold_order_dependent_with_packed_on_pinned :
+    Unify.foldClass 0 [.packed [⟨1, 0, 8⟩] false, .word (some 8) .bool, .word (some 8) .address] 5 =
+      .ok (.packed [⟨1, 0, 8⟩] false, 5, [],
+           [(1, .word (some 8) .bool), (1, .word (some 8) .address)], []) ∧
+    Unify.foldClass 0 [.word (some 8) .bool, .word (some 8) .address, .packed [⟨1, 0, 8⟩] false] 5 =
+      .ok (.conflict, 5, [], [], []) := MergePacked.d18_fold_order_witness
 
 end SLE.C02
